@@ -30,6 +30,7 @@ import (
 	"context"
 	"encoding/json"
 	"fmt"
+	"math"
 	"math/rand"
 	"os"
 	"path/filepath"
@@ -1614,7 +1615,12 @@ func runRetentionPure(b retPureBatch) (res retPureResult) {
 			end := anchor.Add(time.Duration(c.E) * unit).In(retLoc(c.Tz))
 			drift := time.Since(now0)
 			d := time.Duration(0)
-			if c.D != 0 {
+			switch {
+			case c.D == 98: // a very long finite duration: about 250 years
+				d = 250 * 365 * 24 * time.Hour
+			case c.D == 99: // the longest duration an int64 of nanoseconds holds (about 292 years), minus a margin
+				d = time.Duration(math.MaxInt64) - 1000*time.Hour
+			case c.D != 0:
 				d = time.Duration(c.D)*unit + drift
 			}
 			empty := map[uint64]*meta2.ShardDurationInfo{}
